@@ -2,13 +2,14 @@
 import copy
 import hashlib
 import json
+import os
 import random
 
 from .. import common, diagram, runner
 from ..runner import Exploration, Failure
 
 
-def run_case(case, variant):
+def run_case(case):
     """Drive one case on the real classes. Returns (checkpoints, stopped) where a checkpoint is
     {'at': op index (-1 = after construction), 'model': i, 'roi': bool, 'text' | 'exc', 'req': [...],
      'oracle': [(what, details, signature)]}"""
@@ -24,9 +25,9 @@ def run_case(case, variant):
                     cp['text'] = model.get_graph(show_roi=roi).draw(None)
                 except Exception as e:
                     cp['exc'] = '%s: %s' % (type(e).__name__, e)
-                    sig = diagram.roi_keyerror_signature(run, mi) if (roi and isinstance(e, KeyError)) else 'C16.exception'
-                    cp['oracle'].append(('roi-raises' if roi else 'get_graph-raises', {'exception': cp['exc']}, sig))
-                cp['req'] = diagram.enc_request(run, variant, mi, roi)
+                    cp['oracle'].append(('roi-raises' if roi else 'get_graph-raises', {'exception': cp['exc']},
+                                         'C16.roi.exception' if roi else 'C16.exception'))
+                cp['req'] = diagram.enc_request(run, mi, roi)
                 if 'text' in cp:
                     try:
                         d = diagram.parse_mermaid(cp['text'])
@@ -34,9 +35,6 @@ def run_case(case, variant):
                         cp['oracle'] += diagram.oracle_roi(run, mi, d) if roi else diagram.oracle_full(run, mi, d)
                     except diagram.ParseError as e:
                         cp['oracle'].append(('unparseable', {'error': str(e)}, 'C16.parse'))
-                # after a compound add_states on a hierarchical machine the live markup carries stale entries
-                # (open finding): the model does not mirror that corruption, correspondence is not compared
-                cp['skip_corr'] = bool(run.phantom)
                 cp['cur'] = [diagram.name_of(p) for p in diagram.flatten_state(model.state)]
                 cps.append(cp)
 
@@ -61,18 +59,13 @@ def judge(case, cps, answers):
             out.append(Failure('monitor', what, case, det, signature=sig))
         if ans == 'bad-input':
             raise common.MachineryError('driver rejected a c16 request: %r' % (cp['req'][:60],))
-        if cp['skip_corr']:
-            continue
         if cp['roi']:
             # the root `[*] -->` marker of the ROI view is not constrained by the property
             # (Enum states: `roi_state == machine.initial` compares an Enum with a name)
             if 'canon' in cp:
                 cp['canon'] = cp['canon'][:2] + (None,)
-        if ans == 'err':
-            if 'exc' not in cp:
-                out.append(Failure('correspondence', 'diagram_eq', case,
-                                   dict(where, model_says='raises', impl=cp.get('text'))))
-            continue
+        if not ans.startswith('D'):
+            raise common.MachineryError('unexpected driver answer %r' % ans[:80])
         if 'exc' in cp:
             out.append(Failure('correspondence', 'diagram_eq', case, dict(where, model_says='a diagram', impl=cp['exc'])))
             continue
@@ -87,12 +80,12 @@ def judge(case, cps, answers):
     return out
 
 
-def evaluate(cases, variant):
+def evaluate(cases):
     """-> list of (case, cps, stopped, failures)"""
     runs = []
     reqs = []
     for case in cases:
-        cps, stopped, _run = run_case(case, variant)
+        cps, stopped, _run = run_case(case)
         runs.append((case, cps, stopped))
         reqs += [('c16', cp['req']) for cp in cps]
     answers = common.batch_driver(reqs) if reqs else []
@@ -119,11 +112,26 @@ def nontrivial(case, cps):
 
 def chunk(seed, idx, n, nested):
     rng = random.Random('C16/%s/%d/%d' % (nested, seed, idx))
-    variant = diagram.probe_variant()
     cases = [diagram.gen_case(rng, nested) for _ in range(n)]
+    return account(cases)
+
+
+def corpus_cases():
+    """regression cases (witnesses of the former findings, minimised past disagreements): always run first"""
+    cdir = os.path.join(common.CORPUS, 'C16')
+    out = []
+    if os.path.isdir(cdir):
+        for name in sorted(os.listdir(cdir)):
+            if name.endswith('.json'):
+                with open(os.path.join(cdir, name)) as fh:
+                    out.append(json.load(fh)['case'])
+    return out
+
+
+def account(cases):
     ex = Exploration()
     st = ex.stats
-    for case, cps, stopped, fails in evaluate(cases, variant):
+    for case, cps, stopped, fails in evaluate(cases):
         ex.evaluations += 1
         ex.traces_validated += len(cps)
         if nontrivial(case, cps):
@@ -131,7 +139,7 @@ def chunk(seed, idx, n, nested):
             if len(ex.samples) < 1:
                 ex.samples.append({'nested': case['nested'], 'ops': case['ops'][:6],
                                    'last_diagram': next((cp['text'] for cp in reversed(cps) if 'text' in cp and not cp['roi']), None)})
-        k = 'hierarchical' if nested else 'flat'
+        k = 'hierarchical' if case['nested'] else 'flat'
         st.setdefault('kind', {}).setdefault(k, 0)
         st['kind'][k] += 1
         st.setdefault('checkpoints', {}).setdefault('roi' if False else 'all', 0)
@@ -159,9 +167,6 @@ def chunk(seed, idx, n, nested):
             s = f.signature or f.what
             st['oracle_signatures'][s] = st['oracle_signatures'].get(s, 0) + 1
         ex.failures += fails
-    st.setdefault('variant', {})
-    for k, v in variant.items():
-        st['variant']['%s=%s' % (k, v)] = 1
     return ex
 
 
@@ -219,11 +224,9 @@ class C16(runner.Check):
     prop = 'C16'
     level = 'proof'
     theorems = ('TM.C16_states_once_nested', 'TM.C16_states_once_flat', 'TM.C16_edges_exact',
-                'TM.C16_edges_present', 'TM.C16_elements_cover',
-                'TM.C16_final_initial_marked', 'TM.C16_final_marked_flat_partial',
-                'TM.C16_final_marked_flat_counterexample',
-                'TM.C16_activity', 'TM.C16_activity_previous_partial', 'TM.C16_activity_previous_counterexample',
-                'TM.C16_roi', 'TM.C16_roi_defined_partial', 'TM.C16_roi_counterexample', 'TM.C16_regenerated')
+                'TM.C16_edges_present', 'TM.C16_elements_cover', 'TM.C16_final_initial_marked',
+                'TM.C16_final_marked_flat', 'TM.C16_activity', 'TM.C16_activity_previous',
+                'TM.C16_roi', 'TM.C16_roi_defined', 'TM.C16_regenerated')
     manifest = dict(
         level='proof', design='DESIGN.md 4/C16 + design_notes/C16.md',
         text="Mermaid backend only. Lean 4 theorems over an executable model of _get_elements / _transition_label / "
@@ -231,15 +234,16 @@ class C16(runner.Check):
              "with distinct sibling names every state is declared exactly once inside its parent's block; one edge per "
              "(source, destination) whose label list is exactly the labels of the transitions between them (internal "
              "marked, conditions iff requested); final and initial markers; after every graph history styled-active ⊆ "
-             "current states, styled-previous ⊆ {recorded source}, current top-level states carry `active`; the ROI "
-             "view declares the active states, their ancestors and one-step targets; regeneration resets styles. "
+             "current states, styled-previous ⊆ {global source of the last executed transition}, current top-level "
+             "states carry `active`; the ROI view is defined for every machine and declares the active states, their "
+             "ancestors and one-step targets; regeneration resets styles. "
              "The model is tied to /repo by parsing model.get_graph().draw(None) back into the abstract diagram "
              "(equality up to order) and a Python oracle states the clauses directly against the live machine.",
         note="Decided for the Mermaid backend only: graphviz / pygraphviz are not importable in this sandbox. Trusted: "
              "Lean kernel, hand-written Model/Diagram.lean, the Mermaid-subset parser and the oracle in "
-             "harness/diagram.py. Three defects of the pinned tree are open findings (scope-relative `previous`, ROI "
-             "KeyError on internal transitions, flat final states unmarked); the model has a switch per defect that the "
-             "harness sets by probing the live code.",
+             "harness/diagram.py. The model follows the repaired tree (fix: commits d4cb904, 043c146, 84b14cc, 47dcba3); "
+             "the witnesses of the four former findings are regression cases in corpus/C16/ and a return of any of them "
+             "is a VIOLATION.",
         technique="Lean 4 proof (induction over state trees, transition lists, graph histories) + differential "
                   "correspondence on parsed Mermaid text + direct Python oracle")
     rule = ('random flat (1-4 states, 15% Enum states) and hierarchical (2-4 top-level states, depth <= 3, child names '
@@ -250,7 +254,7 @@ class C16(runner.Check):
             'auto_transitions on and off, 1-2 models, histories of 2-9 operations (trigger incl. auto triggers, '
             'add_states, add_transition, remove_transition); after construction and after every operation the full and '
             'the region-of-interest diagram of every model are parsed, compared with the Lean model and judged by the '
-            'oracle. Non-trivial: the model state shown changes during the history (and a compound state exists for '
+            'oracle; the regression cases of corpus/C16/ run first. Non-trivial: the model state shown changes during the history (and a compound state exists for '
             'hierarchical cases); distinct = different case description')
     trusted = ('hand-written model lean/Model/Diagram.lean tied to /repo by equality of abstract diagrams (up to order '
                'of declarations, edges and labels) at every checkpoint',
@@ -262,7 +266,8 @@ class C16(runner.Check):
     def explore(self, tier, seed):
         fc, fn, hc, hn = self.budgets['quick' if tier == 'quick' else 'thorough']
         payloads = [(seed, i, fn, False) for i in range(fc)] + [(seed, i, hn, True) for i in range(hc)]
-        ex = Exploration()
+        ex = account(corpus_cases())        # corpus first
+        ex.stats['corpus_cases'] = ex.evaluations
         for part in runner.parallel(chunk, payloads):
             ex.merge(part)
         self.reduce(ex.failures)
@@ -285,9 +290,8 @@ class C16(runner.Check):
                     break
 
     def rejudge(self, case):
-        variant = diagram.probe_variant()
         try:
-            return evaluate([case], variant)[0][3]
+            return evaluate([case])[0][3]
         except common.MachineryError:
             raise
         except Exception:
@@ -315,9 +319,7 @@ class C16(runner.Check):
         if 'case' not in payload:
             print('no concrete input in this replay file: broken obligation', payload.get('broken_obligation'))
             return 1
-        variant = diagram.probe_variant()
-        print('code variant (probed):', variant)
-        (case, cps, stopped, fails), = evaluate([payload['case']], variant)
+        (case, cps, stopped, fails), = evaluate([payload['case']])
         for cp in cps:
             if not cp['roi']:
                 print('--- after op %d, model %d, state %s' % (cp['at'], cp['model'], cp['cur']))
@@ -345,9 +347,8 @@ class C16(runner.Check):
             'machine is C13/C14 business); automatic = trigger name starts with "to_", which generated names never do',
             'state tags / timeouts (feature mixins) in show_state_attributes are not generated; histories stop at an '
             'operation on which the engine itself raises (other properties)',
-            'the model has one switch per open finding, chosen by probing the code under test on a fixed witness; '
-            'theorems: full-strength statements hold for the repaired switches, `_partial` theorems carry the explicit '
-            'exclusion, `_counterexample` theorems prove the negation on the witness',
+            'the model follows the repaired tree only; corpus/C16/*.json (witnesses of the four former findings) run '
+            'first on every run and must pass',
         ]
 
 
